@@ -110,7 +110,7 @@ def zeros(shape):
     return [0.0] * n if m == 0 else [[0.0] * n for _ in range(m)]
 
 
-def run_case(R, case, named, scalar_kind, n_case, mismatch_names=False, result="converter"):
+def run_case(R, case, named, scalar_kind, n_case, mismatch_names=False, result="converter", late=False):
     BPTK_Py = common.use_repo()
     from BPTK_Py import Model
     sa, sb = tuple(case["sa"]), tuple(case["sb"])
@@ -142,9 +142,23 @@ def run_case(R, case, named, scalar_kind, n_case, mismatch_names=False, result="
             if prev[0] > 0:
                 a._elements.matrix_size()
             a = make_operand(model, "opa", sa, A, scalar_kind, named, el=a)
+        elif late:
+            # the Python expression is written while its operands are not dimensioned yet; they get their shape afterwards and
+            # only then the stored expression becomes the equation (the arrays an equation computes on are those of the model
+            # at evaluation time, whatever the order in which the program was written)
+            info["expression_built_before_operands_were_dimensioned"] = True
+            a = model.constant("opa") if sa != (0, 0) else make_operand(model, "opa", sa, A, scalar_kind, named)
+            b = model.constant("opb") if sb != (0, 0) else make_operand(model, "opb", sb, B, scalar_kind, named)
+            expr = {"+": lambda: a + b, "-": lambda: a - b, "*": lambda: a * b, "/": lambda: a / b}[case["op"]]()
+            if sa != (0, 0):
+                make_operand(model, "opa", sa, A, scalar_kind, named, el=a)
+            if sb != (0, 0):
+                make_operand(model, "opb", sb, B, scalar_kind, named, el=b)
         else:
             a = make_operand(model, "opa", sa, A, scalar_kind, named, order=oa)
-        if case["form"] == "dotmix":
+        if late:
+            pass
+        elif case["form"] == "dotmix":
             b = make_operand(model, "opb", sb, B, scalar_kind, named)
             expr = {"sub": lambda: a - b.dot(a), "in": lambda: a.dot(b + (b * a)), "in1": lambda: a.dot(b + a)}[case["op"]]()
         elif case["form"] == "ew2":
@@ -256,6 +270,11 @@ def run(tier, replay_file=None):
                 n += 1
                 run_case(R, case, named, "element", n, result="stock")
                 R.add("traces_validated_against_impl"); R.add("stock_result_cases")
+        if case["form"] == "ew" and case["res"] != "reject" and not (tuple(case["sa"]) == (0, 0) and tuple(case["sb"]) == (0, 0)):
+            for named in (False, True):        # the same program written in another order: expression first, shapes afterwards
+                n += 1
+                run_case(R, case, named, "element", n, late=True)
+                R.add("traces_validated_against_impl"); R.add("expression_before_dimension_cases")
         if case["form"] == "ew" and both_arrays and case["sa"] == case["sb"]:
             n += 1
             run_case(R, case, True, "element", n, mismatch_names=True)     # equal shapes, different index names
